@@ -255,6 +255,22 @@ def wrong_seed_recovers(f):
     return (len(bad) == len(outs)), bad[:1]
 
 
+def recover_only_differs(f):
+    """C10: on the real crates RecoverOnly and RecoverAndVerify return different masks for the same accepted proof and statement"""
+    outs = _runs(f, (1, 2))
+    bad = []
+    for o in outs:
+        if 'crash' in o:
+            return None, o
+        for mi, per in enumerate(o.get('verify_each') or []):
+            by = {v['action']: v for v in per or []}
+            a, b = by.get('RecoverAndVerify'), by.get('RecoverOnly')
+            if a and b and a['result'] == 'ok' and b['result'] == 'ok' and a['masks'] != b['masks']:
+                bad.append({'view': mi, 'RecoverAndVerify': a['masks'], 'RecoverOnly': b['masks']})
+                break
+    return (len(bad) == len(outs)), bad[:1]
+
+
 def challenges_unchanged(f):
     """C04: changing one absorbed datum leaves the challenges unchanged. Observables on the real crates: (i) the mask returned by
     RecoverOnly for a seeded single-commitment statement (a function of every challenge), (ii) bytes squeezed from the caller's
@@ -517,7 +533,7 @@ def generators_mismatch(f):
     for a, b in zip(o['gi_compressed'], o['hi_compressed']):
         inter += [a, b]
     for k, _, enc in o['precomp_units']:
-        if inter[k] != enc:
+        if k >= len(inter) or inter[k] != enc:
             bad.append('precomputed table slot %d is not the interleaved generator' % k)
             break
     return (len(bad) > 0), bad[:4]
